@@ -188,9 +188,13 @@ let verdict case impl =
         end
         else begin
           (* the acceptor refused: evaluate the property itself, phrased with the specification *)
+          (* C12_prop_obs_complete / _sound: prop_obs_ok with the request's own token IS route_prop for this
+             observation; the specification's token (C03) must be that token *)
           let spec_tok =
             if stm.st_wire <> [] && key_okb stm.st_ncols stm.st_wire values
             then Some (spec_token stm.st_part stm.st_wire values) else None in
+          let req_tok = match routing_request stm cfg values with Ok rq -> rq.rq_token | Err _ -> None in
+          if spec_tok <> None && spec_tok <> req_tok then "diff token-differs-from-specification" else
           let detail =
             match routing_request stm cfg values with
             | Err _ -> "request=err"
@@ -229,17 +233,35 @@ let verdict case impl =
         | [a; b] -> (a, b) | _ -> failwith "bad pool" in
       let k = nat_of_hex (String.sub pool 1 (String.length pool - 1)) in
       let size = if pool.[0] = 'S' then PerShard k else PerHost k in
-      let mk cid sh = { cid = hexn cid; cinfo = (if nr = N0 then None else Some ((hexn sh, nr), msb)) } in
+      ignore nr;
+      (* every connection carries the shard count the node reported to IT (resharding changes it) *)
+      let mk cid sh cnr = let cnr = hexn cnr in
+        { cid = hexn cid; cinfo = (if cnr = N0 then None else Some ((hexn sh, cnr), msb)) } in
+      let nrs = ref [] in
       let evs = if evs_s = "-" then [] else
           List.map (fun e ->
               let body = String.sub e 1 (String.length e - 1) in
               match e.[0], String.split_on_char '.' body with
-              | 'r', [cid; sh; sap] -> EvReady (mk cid sh, sap = "1")
-              | 'b', [cid; sh] -> EvBroken (mk cid sh)
+              | 'r', [cid; sh; sap; cnr] -> (if not (List.mem cnr !nrs) then nrs := cnr :: !nrs); EvReady (mk cid sh cnr, sap = "1")
+              | 'b', [cid; sh; cnr] -> EvBroken (mk cid sh cnr)
               | _ -> failwith "bad event") (String.split_on_char ';' evs_s) in
       let fin = if fin_s = "_" then [] else List.map hexn (String.split_on_char '+' fin_s) in
-      if refill_ok size evs fin then
-        Printf.sprintf "ok kind=refill events=%d dropped=%d" (List.length evs) (int_of_nat (refill_dropped size evs))
+      if refill_ok size evs fin then begin
+        (* which branches of the refiller model this history went through (for the coverage floors) *)
+        let reqdrop = ref 0 and trimmed = ref 0 and reshards = ref 0 in
+        let has r c = List.exists (fun x -> x.cid = c.cid) (List.concat r.rf_conns) || List.exists (fun x -> x.cid = c.cid) r.rf_excess in
+        ignore (List.fold_left (fun r e ->
+            let r' = pool_step size r e in
+            (match e with
+             | EvReady (c, req) ->
+               if r.rf_sharder <> r'.rf_sharder && List.concat r.rf_conns <> [] then incr reshards;
+               if req && not (has r' c) then incr reqdrop;
+               if r.rf_excess <> [] && r'.rf_excess = [] && r.rf_sharder = r'.rf_sharder then incr trimmed
+             | EvBroken _ -> ());
+            r') rf_init evs);
+        Printf.sprintf "ok kind=refill events=%d dropped=%d sharders=%d reshards=%d reqdrop=%d trimmed=%d" (List.length evs)
+          (int_of_nat (refill_dropped size evs)) (List.length !nrs) !reshards !reqdrop !trimmed
+      end
       else "diff refiller model-pool=" ^
            string_of_nlist (List.map (fun c -> match c.cinfo with Some ((s, _), _) -> s | None -> N0)
                               (List.concat (pool_run size evs).rf_conns))
